@@ -236,3 +236,5 @@ def build(chk):
     # the limiter contract the step lemmas are stated over (TVD-region clauses of every limiter, C12)
     from . import C12
     chk.include(C12, r"/(scalar|array)$", "uses:C12")
+    from . import C20
+    chk.include(C20, r".", "uses:C20")          # the mesh contract
